@@ -243,7 +243,7 @@ static void write_replay(const char *kind, const char *msg, char *path_out, size
     FILE *f = fopen(path_out, "w");
     if (!f) return;
     fprintf(f, "{\"property\":\"%s\",\"engine\":\"vmpi\",\"scenario\":", PROPERTY); sx_json_str(f, SC.text);
-    fprintf(f, ",\n \"mode\":\"d%d\",\"kind\":\"%s\",\"choices\":\"%s\",\n \"message\":", max_devs, kind, ch); sx_json_str(f, msg); fprintf(f, "}\n"); fclose(f);
+    fprintf(f, ",\n \"mode\":\"d%d\",\"strict_dup\":%d,\"kind\":\"%s\",\"choices\":\"%s\",\n \"message\":", max_devs, vm_strict_dup, kind, ch); sx_json_str(f, msg); fprintf(f, "}\n"); fclose(f);
 }
 
 /* one run from fresh engines along path[0..prefix_len) and then default choices; returns 0 = ended normally (terminal / pruned),
@@ -470,6 +470,7 @@ static int replay_main(const char *file)
     if ((s = strstr(buf, "\"choices\":\""))) { s += 11; e = strchr(s, '"'); snprintf(choices, sizeof(choices), "%.*s", (int)(e - s), s); }
     if ((s = strstr(buf, "\"mode\":\""))) { s += 8; e = strchr(s, '"'); snprintf(mode, sizeof(mode), "%.*s", (int)(e - s), s); }
     if (scenario_parse(scen, &SC)) { fprintf(stderr, "bad scenario in %s\n", file); return 2; }
+    if (strstr(buf, "\"strict_dup\":1")) vm_strict_dup = 1;
     world_init();
     memset(&ST, 0, sizeof(ST)); path_len = 0;
     for (char *tok = strtok(choices, " "); tok; tok = strtok(NULL, " ")) { path[path_len].ch = (uint8_t)atoi(tok); path[path_len].n = 0; path_len++; }
